@@ -284,6 +284,28 @@ pub fn run(ctx: &mut Ctx) {
         };
         let buf_txt = buf_solver.get_print_buffer().unwrap_or_default();
         ctx.eval(1);
+        // selecting the buffer again starts a new capture: a second solve on the same solver must leave exactly one
+        // solve's output in it (and nothing at all when verbose has been switched off in between)
+        if case % 3 == 0 {
+            buf_solver.print_to_buffer();
+            let quiet_again = case % 6 == 0;
+            if quiet_again {
+                buf_solver.settings.verbose = false;
+            }
+            if catch(std::panic::AssertUnwindSafe(|| buf_solver.solve())).is_ok() {
+                let second = buf_solver.get_print_buffer().unwrap_or_default();
+                ctx.eval(1);
+                ctx.bump("buffer_reselected_before_a_second_solve");
+                if quiet_again {
+                    if !second.is_empty() {
+                        ctx.violation("verbose_off_wrote_to_buffer", "verbose_off_wrote_to_buffer:after_reselect", wl, case, json!({"problem": p.to_json(), "settings": problem::settings_json(&loud), "bytes": second.len(), "head": second.chars().take(200).collect::<String>()}));
+                    }
+                } else if mask_time(&second) != mask_time(&buf_txt) {
+                    ctx.violation("buffer_after_reselect_differs", "buffer_after_reselect_differs", wl, case, json!({"problem": p.to_json(), "settings": problem::settings_json(&loud), "first_len": buf_txt.len(), "second_len": second.len()}));
+                }
+            }
+            buf_solver.settings.verbose = true;
+        }
         ctx.bump(&format!("status_{}", status_name(buf_solver.solution.status)));
         let sb = Arc::new(Mutex::new(Vec::new()));
         let sb2 = sb.clone();
